@@ -4,7 +4,7 @@ import copy
 import gc
 
 from simkit.core import EventLog, Outcome, Violation, stable_hash
-from props.repro_common import (Doc, Seg, NAMES, WORDS, variants, gen_doc, norm_assigned,
+from props.repro_common import (Doc, Seg, NAMES, WORDS, variants, gen_doc, norm_assigned, nl_lines,
                                 assignable, mini_parse_field, parse, sut_summary)
 
 SORTKEYS = {"len": lambda x: (len(x), x.lower()), "rev": lambda x: x.lower()[::-1],
@@ -502,7 +502,7 @@ class Run(object):
         rest = ptext
         for k, v in d.items():
             # split off one field: up to the next line that starts a new field
-            lines = rest.splitlines(True)
+            lines = nl_lines(rest)
             n = 1
             while n < len(lines) and lines[n][0] in " \t#":
                 n += 1
@@ -569,13 +569,13 @@ class Run(object):
                                     {"step": si, "paragraph": pi, "got": t, "want": want,
                                      "dump": dump})
         for g in gaps:
-            for l in g.splitlines(True):
+            for l in nl_lines(g):
                 if l.strip() != "" and not l.startswith("#"):
                     raise Violation("foreign-text-between-paragraphs", op,
                                     {"step": si, "gap": g, "dump": dump})
         for a, b in zip(nonempty, nonempty[1:]):
             between = "".join(gaps[a + 1:b + 1])
-            if not any(l.strip() == "" for l in between.splitlines(True)):
+            if not any(l.strip() == "" for l in nl_lines(between)):
                 raise Violation("inserted-paragraph-merged-with-neighbour", op,
                                 {"step": si, "between": between, "dump": dump})
         self.doc.leading = gaps[0]
@@ -595,9 +595,9 @@ class Run(object):
         out = []
         for p in self.doc.paras:
             for s in p:
-                out.extend(l.rstrip("\n") for l in s.comment.splitlines(True))
+                out.extend(l.rstrip("\n") for l in nl_lines(s.comment))
         for g in [self.doc.leading] + self.doc.seps + [self.doc.trailing]:
-            out.extend(l.rstrip("\n") for l in g.splitlines(True) if l.startswith("#"))
+            out.extend(l.rstrip("\n") for l in nl_lines(g) if l.startswith("#"))
         return out
 
 
